@@ -24,6 +24,10 @@ func init() {
 			"ExecutionEngine.Execute reaches planning only through the success edges of normalization (when needed), then of ValidateForSchema (err == nil ∧ Valid), and reaches the resolver only when planning reported no error; ValidateForSchema validates with DefaultOperationValidator and the validator reports Invalid whenever the report has errors. " +
 			"It does not decide accept ⇔ spec-valid for all documents (that is the rules' own logic).",
 		Mutants: []Mutant{
+			{Name: "a leaf field is no longer compared with recorded enum / composite fields (reverts part of the F89 fix)", File: "v2/pkg/astvalidation/operation_rule_field_selection_merging.go", Rule: "C04-R17", Key: "fieldSelectionMergingVisitor.EnterField/scalar-arm-consults:nonScalarRequirements",
+				Old: "\tif nonScalars := f.NonScalarRequirementsByPathField(path, objectName); len(nonScalars) != 0 {\n\t\tf.stopWithTypesMismatch(objectName, f.nonScalarRequirements[nonScalars[0]].fieldTypeRef, fieldType)\n\t\treturn\n\t}\n", New: ""},
+			{Name: "types that cannot be the same object are not compared at all (reverts part of the F89 fix)", File: "v2/pkg/astvalidation/operation_rule_field_selection_merging.go", Rule: "C04-R17", Key: "fieldSelectionMergingVisitor.EnterField/types-compared-in-both-arms",
+				Old: "\t\t\t\tif !f.typesHaveSameShape(f.nonScalarRequirements[i].fieldTypeRef, fieldType, isLeaf, ignoreNullability) {\n\t\t\t\t\tf.stopWithTypesMismatch(objectName, f.nonScalarRequirements[i].fieldTypeRef, fieldType)\n\t\t\t\t\treturn\n\t\t\t\t}\n", New: "\t\t\t\t_, _ = isLeaf, ignoreNullability\n"},
 			{Name: "the Int range check looks at the digits only (reverts the F88 fix)", File: "v2/pkg/ast/ast_val_int_value.go", Rule: "C04-R16", Key: "Document.IntValueValidInt32/IntValue-digits-read-with-the-sign",
 				Old: "\tif d.IntValues[ref].Negative {\n\t\t// Raw holds the digits without the sign", New: "\tif false {\n\t\t// Raw holds the digits without the sign"},
 			{Name: "composite fields with the same response name are not compared by name and arguments (reverts part of the F86 fix)", File: "v2/pkg/astvalidation/operation_rule_field_selection_merging.go", Rule: "C04-R15", Key: "fieldSelectionMergingVisitor.EnterField/composite-arm-reads-arguments",
@@ -92,6 +96,7 @@ func runC04(r *fw.Run) {
 	defer c04VariableUsesFoundAtEveryDepth(r)
 	defer c04MergeDecisionsReadTheArguments(r)
 	defer c04NumberLiteralsAreReadWithTheirSign(r)
+	defer c04ResponseShapeTablesMeet(r)
 	p := r.Prog
 	pk := p.Pkg("astvalidation")
 	if pk == nil {
@@ -482,7 +487,7 @@ func isResolverEntry(info *types.Info, c *ast.CallExpr) bool {
 // loop body sets it to false on every way to the next iteration (consumed at the first level).
 func c04DefaultRelaxationOnlyOutermost(r *fw.Run) {
 	p := r.Prog
-	r.Rule("C04-R9", "in a level-by-level type compatibility walk the has-default relaxation applies to the outermost level only: the boolean parameter is not read inside the unnesting loop (or is cleared on every way round it)")
+	r.Rule("C04-R9", "in a level-by-level type compatibility walk the has-default relaxation applies to the outermost level only: the boolean parameter fed from a default-value query at a call site is not read inside the unnesting loop (or is cleared on every way round it)")
 	n := 0
 	for _, fi := range p.Funcs("astvalidation") {
 		info := fi.Info()
@@ -531,6 +536,10 @@ func c04DefaultRelaxationOnlyOutermost(r *fw.Run) {
 				return true
 			}
 			for _, flag := range flags {
+				if !c04FlagIsFedFromADefaultValue(p, fi, flag) {
+					// another relaxation (e.g. "ignore nullability", which holds at every level): not this rule's business
+					continue
+				}
 				var read ast.Node
 				fw.WalkAll(loop.Body, func(m ast.Node) bool {
 					if id, isID := m.(*ast.Ident); isID && info.Uses[id] == flag && read == nil {
@@ -570,6 +579,67 @@ func c04DefaultRelaxationOnlyOutermost(r *fw.Run) {
 		})
 	}
 	r.Expect("C04-R9", "has-default flags of level-by-level type compatibility walks", n, 1)
+}
+
+// c04FlagIsFedFromADefaultValue: at some call site of fi in the package the argument for the flag is computed from a query
+// about a default value — the argument expression, or the right-hand side that defines the local it names, mentions a
+// function or field whose (resolved) name contains "DefaultValue".
+func c04FlagIsFedFromADefaultValue(p *fw.Prog, fi *fw.FuncInfo, flag *types.Var) bool {
+	sig := fi.Obj.Type().(*types.Signature)
+	idx := -1
+	for i := 0; i < sig.Params().Len(); i++ {
+		if sig.Params().At(i) == flag {
+			idx = i
+		}
+	}
+	if idx < 0 {
+		return false
+	}
+	mentions := func(info *types.Info, e ast.Node) bool {
+		found := false
+		fw.WalkAll(e, func(nd ast.Node) bool {
+			switch x := nd.(type) {
+			case *ast.CallExpr:
+				if fn := fw.Callee(info, x); fn != nil && strings.Contains(fn.Name(), "DefaultValue") {
+					found = true
+				}
+			case *ast.SelectorExpr:
+				if v, _ := fw.Field(info, x); v != nil && strings.Contains(v.Name(), "DefaultValue") {
+					found = true
+				}
+			}
+			return true
+		})
+		return found
+	}
+	fed := false
+	fw.EachCall(p.Funcs("astvalidation"), func(caller *fw.FuncInfo, c *ast.CallExpr, stack []ast.Node) {
+		cinfo := caller.Info()
+		if fn := fw.Callee(cinfo, c); fn == nil || fn != fi.Obj || idx >= len(c.Args) {
+			return
+		}
+		arg := ast.Unparen(c.Args[idx])
+		if mentions(cinfo, arg) {
+			fed = true
+			return
+		}
+		if id, ok := arg.(*ast.Ident); ok {
+			obj := cinfo.ObjectOf(id)
+			fw.WalkAll(caller.Decl.Body, func(nd ast.Node) bool {
+				if as, isAs := nd.(*ast.AssignStmt); isAs {
+					for i, l := range as.Lhs {
+						if lid, isID := l.(*ast.Ident); isID && cinfo.ObjectOf(lid) == obj {
+							if len(as.Rhs) == len(as.Lhs) && mentions(cinfo, as.Rhs[i]) || len(as.Rhs) == 1 && mentions(cinfo, as.Rhs[0]) {
+								fed = true
+							}
+						}
+					}
+				}
+				return true
+			})
+		}
+	})
+	return fed
 }
 
 // c04CountedMatchingIsOneToOne (R10): an equality of two lists that may hold duplicates (directives are repeatable) decided
@@ -1313,4 +1383,173 @@ func c04NumberLiteralsAreReadWithTheirSign(r *fw.Run) {
 		nc += len(rawCarrier[k])
 	}
 	r.Note("C04-R16: %d raw-bytes carriers, %d carriers over several value kinds (their callers are not tracked), %d readers checked", nc, generic, n)
+}
+
+// c04ResponseShapeTablesMeet (R17): SameResponseShape compares every pair of fields with one response name under one path,
+// whatever they return. The field selection merging rule records leaf fields and the others (enums, types with
+// selections) in two tables. (a) An arm of the scalar / composite split that consults its own table only can never see a
+// scalar next to an enum or an object (`{ dog { a: color a: name } }`): each arm reaches a read of both tables, directly or
+// through a method of the visitor. (b) In the composite arm the if / else over "can the two returned types be the same
+// object" compares the two field types in both arms — the one for different types too: list and non-null levels have to
+// agree (`x: dogs` next to `x: cat`). The rule decides that the tables meet and that the types are looked at, not the
+// comparison made.
+func c04ResponseShapeTablesMeet(r *fw.Run) {
+	p := r.Prog
+	r.Rule("C04-R17", "in the field selection merging rule each arm of the scalar / composite split reaches a read of both requirement tables, and the composite arm compares the recorded and the current field type whether or not the returned types can be the same object")
+	fi := p.Func("astvalidation", "fieldSelectionMergingVisitor.EnterField")
+	if fi == nil {
+		r.Error("C04-R17: fieldSelectionMergingVisitor.EnterField not found")
+		return
+	}
+	info := fi.Info()
+	// the tables: fields of the visitor whose type is a slice of structs
+	tables := map[*types.Var]bool{}
+	var tableNames []string
+	if recv := fi.Obj.Type().(*types.Signature).Recv(); recv != nil {
+		t := recv.Type()
+		if pt, ok := t.(*types.Pointer); ok {
+			t = pt.Elem()
+		}
+		if st, ok := t.Underlying().(*types.Struct); ok {
+			for i := 0; i < st.NumFields(); i++ {
+				if sl, isSl := st.Field(i).Type().Underlying().(*types.Slice); isSl {
+					if _, isSt := sl.Elem().Underlying().(*types.Struct); isSt {
+						tables[st.Field(i)] = true
+						tableNames = append(tableNames, st.Field(i).Name())
+					}
+				}
+			}
+		}
+	}
+	r.Expect("C04-R17", "requirement tables of the visitor", len(tables), 2)
+	// methods of the package that read a table
+	readers := map[*types.Func]map[*types.Var]bool{}
+	direct := func(f *fw.FuncInfo, n ast.Node) map[*types.Var]bool {
+		out := map[*types.Var]bool{}
+		finfo := f.Info()
+		fw.WalkAll(n, func(nd ast.Node) bool {
+			switch x := nd.(type) {
+			case *ast.SelectorExpr:
+				if v, _ := fw.Field(finfo, x); v != nil && tables[v] {
+					out[v] = true
+				}
+			case *ast.CallExpr:
+				if fn := fw.Callee(finfo, x); fn != nil {
+					for v := range readers[fn] {
+						out[v] = true
+					}
+				}
+			}
+			return true
+		})
+		return out
+	}
+	for changed := true; changed; {
+		changed = false
+		for _, g := range p.Funcs("astvalidation") {
+			if g.Obj == fi.Obj {
+				continue
+			}
+			got := direct(g, g.Decl.Body)
+			if len(got) > len(readers[g.Obj]) {
+				readers[g.Obj] = got
+				changed = true
+			}
+		}
+	}
+	var split *ast.IfStmt
+	fw.WalkAll(fi.Decl.Body, func(nd ast.Node) bool {
+		is, ok := nd.(*ast.IfStmt)
+		if !ok || split != nil {
+			return true
+		}
+		a := fw.Atom(info, is.Cond, true)
+		if (a.Kind == "Ne" || a.Kind == "Eq") && fw.ConstObj(info, a.Y) != nil && fw.ConstObj(info, a.Y).Name() == "NodeKindScalarTypeDefinition" {
+			split = is
+		}
+		return true
+	})
+	if split == nil {
+		r.Error("C04-R17: the scalar / composite split of EnterField was not found")
+		return
+	}
+	inComposite := direct(fi, split.Body)
+	inScalar := map[*types.Var]bool{}
+	after := false
+	for _, st := range fi.Decl.Body.List {
+		if st == ast.Stmt(split) {
+			after = true
+			continue
+		}
+		if after {
+			for v := range direct(fi, st) {
+				inScalar[v] = true
+			}
+		}
+	}
+	if split.Else != nil {
+		for v := range direct(fi, split.Else) {
+			inScalar[v] = true
+		}
+	}
+	sort.Strings(tableNames)
+	for v := range tables {
+		r.Check(inComposite[v], "C04-R17", fi.Name()+"/composite-arm-consults:"+v.Name(), p.Pos(split.Pos()), "the composite arm of "+fi.Name()+" reads the table "+v.Name(),
+			"the arm of the field selection merging rule for enums and fields with selections never looks into "+v.Name()+": a field recorded there and this one never meet — `{ pet { ... on Dog { x: owner { name } } ... on Cat { x: name } } }` (an object next to a String under one response name) is admitted")
+		r.Check(inScalar[v], "C04-R17", fi.Name()+"/scalar-arm-consults:"+v.Name(), p.Pos(split.End()), "the scalar arm of "+fi.Name()+" reads the table "+v.Name(),
+			"the arm of the field selection merging rule for leaf fields never looks into "+v.Name()+": a field recorded there and this one never meet — `{ dog { a: color a: name } }` (an enum next to a String under one response name) is admitted")
+	}
+	// (b) the if / else over "can the returned types be the same object"
+	isTypeRefOfRequirement := func(e ast.Expr) bool {
+		v, _ := fw.Field(info, e)
+		if v == nil {
+			return false
+		}
+		_, isInt := v.Type().Underlying().(*types.Basic)
+		return isInt && strings.Contains(strings.ToLower(v.Name()), "type") && v.Pkg() != nil && v.Pkg().Path() == fw.PkgPath("astvalidation")
+	}
+	comparesTypes := func(n ast.Node) bool {
+		found := false
+		fw.WalkAll(n, func(nd ast.Node) bool {
+			if c, ok := nd.(*ast.CallExpr); ok && len(c.Args) >= 2 {
+				for _, a := range c.Args {
+					if isTypeRefOfRequirement(a) {
+						found = true
+					}
+				}
+			}
+			return true
+		})
+		return found
+	}
+	var sameObj *ast.IfStmt
+	fw.WalkAll(split.Body, func(nd ast.Node) bool {
+		is, ok := nd.(*ast.IfStmt)
+		if !ok || sameObj != nil || is.Else == nil {
+			return true
+		}
+		hit := false
+		fw.WalkAll(is.Cond, func(x ast.Node) bool {
+			if c, isC := x.(*ast.CallExpr); isC {
+				if fn := fw.Callee(info, c); fn != nil && fn.Name() == "potentiallySameObject" {
+					for _, a := range c.Args {
+						if v, _ := fw.Field(info, a); v != nil && strings.Contains(v.Name(), "TypeDefinitionNode") {
+							hit = true
+						}
+					}
+				}
+			}
+			return true
+		})
+		if hit {
+			sameObj = is
+		}
+		return true
+	})
+	if sameObj == nil {
+		r.Error("C04-R17: the if / else over potentiallySameObject(<type nodes>) was not found in the composite arm")
+		return
+	}
+	r.Check(comparesTypes(sameObj.Body) && comparesTypes(sameObj.Else), "C04-R17", fi.Name()+"/types-compared-in-both-arms", p.Pos(sameObj.Pos()), "both arms of the same-object test on the returned types compare the recorded and the current field type",
+		"one arm of the test \"can the two returned types be the same object\" never hands the recorded field type to a comparison: for two different object types the list / non-null levels are not compared — `{ pet { ... on Dog { x: dogs { name } } ... on Cat { x: cat { name } } } }` (`[Dog]` next to `Cat`) is admitted, as are two different enums")
 }
